@@ -1,7 +1,7 @@
 """C11: Packet.append / assemble / SterilePacket.sterile vs Ecat/Frame.v"""
 import struct
 
-from .common import Check, Err, cbool, clist, cz, czlist
+from .common import Check, Err, RLE, cbool, clist, cz, czlist
 
 POS_CMDS = [1, 2, 3, 4, 5, 6, 7, 8, 9, 13, 14]
 LOG_CMDS = [10, 11, 12]
@@ -130,10 +130,21 @@ class C11(Check):
         return [outs, None if frame is None else [1, frame], None if ster is None else [1, ster],
                 bool(p.full()), p.size, otf]
 
+    def model_value(self, case, o):
+        if isinstance(o, Err):
+            return o
+        o = list(o)
+        for k in (1, 2):
+            if o[k] is not None:
+                o[k] = [1, RLE(o[k][1])]
+        return o
+
     def model_term(self, case):
         ops = []
         for w, cmd, data, wkc, idx, addr in case["ops"]:
-            ops.append(f"({cbool(w)}, {{| d_cmd := {cz(cmd)}; d_data := {czlist(data)}; d_wkc := {cz(wkc)}; "
+            k = len(data.rstrip(b"\0"))
+            cdata = f"({czlist(data[:k])} ++ zeros {len(data) - k}%nat)"
+            ops.append(f"({cbool(w)}, {{| d_cmd := {cz(cmd)}; d_data := {cdata}; d_wkc := {cz(wkc)}; "
                        f"d_idx := {cz(idx)}; d_addr := {czlist(addr)} |}})")
         return f"(run {clist(ops)} {cz(case['index'])} {cz(case['ethertype'])})"
 
